@@ -588,3 +588,7 @@ class C14(Check):
 # the composed stream (one real application, one request, against App.serve of Model/App.lean)
 from harness import applib as _applib  # noqa: E402
 _applib.install(C14, quick=(250, 100), thorough=(8000, 2500))
+
+# the response-side helper classes (HeaderDict full API, HeaderProperty, copy, delete_cookie, WSGIFileWrapper, _closeiter)
+from harness import resphelplib as _resphelp  # noqa: E402
+_resphelp.install(C14)
